@@ -217,6 +217,8 @@ def _mem(draw, isa, form, p, pos, role, lcd_safe=False):
     modes = ["b", "bo", "bo", "bi"]
     if not (s and d):
         modes += ["pre", "post"]
+    else:
+        modes = ["bo"]  # read-modify-write: unique displacement per line, so two of them never alias
     mode = draw(st.sampled_from(modes))
     if off is None or off == 0:
         off = 8
